@@ -107,9 +107,9 @@ class ChefRoundTrip(Task):
     qual = CH + "write_global_header"
     inline = INLINE_PCK + (PCK + "__init__", CH + "update_cell_header", CH + "write_global_header")
 
-    def __init__(self, nf, nboxes, nkept):
-        self.cfg = dict(nf=nf, nboxes=nboxes, nkept=nkept)
-        self.name = f"chef-headers-roundtrip[nf={nf},boxes={nboxes},kept={nkept}]"
+    def __init__(self, nf, nboxes, nkept, limit=None):
+        self.cfg = dict(nf=nf, nboxes=nboxes, nkept=nkept, limit=limit)
+        self.name = f"chef-headers-roundtrip[nf={nf},boxes={nboxes},kept={nkept}" + (f",limit={limit}]" if limit is not None else "]")
 
     def functions(self):
         return [self.qual, CH + "update_cell_header", PCK + "__init__"] + list(INLINE_PCK)
@@ -130,19 +130,20 @@ class ChefRoundTrip(Task):
         ex.call_depth += 1
         try:
             chef = Record("amr_kitchen.chef.chef.Chef")
-            ex.call_qual(PCK + "__init__", [root], {}, self_obj=chef)
+            ex.call_qual(PCK + "__init__", [root], dict(limit_level=c["limit"]), self_obj=chef)
             kept = list(range(c["nkept"]))
+            Lc = pf.L if c["limit"] is None else c["limit"]
             dn = Opaque("derived", "name", distinct_from_literals=True)
             dn.sym = z3.Int("derived")
             newname = S(NameAtom(dn))
             chef.attrs["outdir"] = out_path()
             chef.attrs["outfields"] = [S(NameAtom(pf.names[k])) for k in kept] + [newname]
             nout = len(kept) + 1
-            newoff = [[z3.Int(f"newoff{lv}_{b}") for b in range(pf.nboxes[lv])] for lv in range(pf.L + 1)]
-            nmins = [[[z3.Real(f"nmin{lv}_{b}_{k}") for k in range(nout)] for b in range(pf.nboxes[lv])] for lv in range(pf.L + 1)]
-            nmaxs = [[[z3.Real(f"nmax{lv}_{b}_{k}") for k in range(nout)] for b in range(pf.nboxes[lv])] for lv in range(pf.L + 1)]
+            newoff = [[z3.Int(f"newoff{lv}_{b}") for b in range(pf.nboxes[lv])] for lv in range(Lc + 1)]
+            nmins = [[[z3.Real(f"nmin{lv}_{b}_{k}") for k in range(nout)] for b in range(pf.nboxes[lv])] for lv in range(Lc + 1)]
+            nmaxs = [[[z3.Real(f"nmax{lv}_{b}_{k}") for k in range(nout)] for b in range(pf.nboxes[lv])] for lv in range(Lc + 1)]
             ex.call_qual(CH + "write_global_header", [], {}, self_obj=chef)
-            for lv in range(pf.L + 1):
+            for lv in range(Lc + 1):
                 hdr_r = join2(ex, join2(ex, root, f"Level_{lv}"), "Cell_H")
                 ex.call_qual(CH + "update_cell_header", [lv, hdr_r, Vec(newoff[lv]), [Vec(r) for r in nmins[lv]], [Vec(r) for r in nmaxs[lv]]],
                              {}, self_obj=chef)
@@ -158,7 +159,7 @@ class ChefRoundTrip(Task):
             return
         pf = inp["pf"]
         back, newoff, nmins, nmaxs, names = out.value
-        view = View(pf, list(range(len(names))), pf.L, newoff, names=names)
+        view = View(pf, list(range(len(names))), pf.L if self.cfg["limit"] is None else self.cfg["limit"], newoff, names=names)
         view.mins, view.maxs = nmins, nmaxs
         check_reader_view(ex, back, view, None, True, False, label="roundtrip", grids=False)
 
@@ -170,9 +171,11 @@ class CombineRoundTrip(Task):
     qual = CB + "rewrite_level_header"
     inline = INLINE_PCK + (PCK + "__init__", PCK + "write_global_header_new_fields", CB + "rewrite_level_header")
 
-    def __init__(self, nf1, nf2, nboxes, k1, k2):
-        self.cfg = dict(nf1=nf1, nf2=nf2, nboxes=nboxes, k1=k1, k2=k2)
-        self.name = f"combine-headers-roundtrip[nf={nf1}+{nf2},boxes={nboxes},sel={k1}+{k2}]"
+    def __init__(self, nf1, nf2, nboxes, k1, k2, limit=None, nboxes2=None):
+        """limit: the first plotfile is opened with limit_level=limit (an ancestor combined with a level-limited descendant whose
+        own level structure is nboxes2)"""
+        self.cfg = dict(nf1=nf1, nf2=nf2, nboxes=nboxes, k1=k1, k2=k2, limit=limit, nboxes2=nboxes2 or nboxes)
+        self.name = f"combine-headers-roundtrip[nf={nf1}+{nf2},boxes={nboxes},sel={k1}+{k2}" + (f",limit={limit},second={nboxes2}]" if limit is not None else "]")
 
     def functions(self):
         return [self.qual, PCK + "write_global_header_new_fields", PCK + "__init__"] + list(INLINE_PCK)
@@ -180,7 +183,7 @@ class CombineRoundTrip(Task):
     def setup(self, ex):
         c = self.cfg
         pf1 = SkelPF(3, c["nf1"], c["nboxes"], tag="a")
-        pf2 = SkelPF(3, c["nf2"], c["nboxes"], tag="b")
+        pf2 = SkelPF(3, c["nf2"], c["nboxes2"], tag="b")
         fs = TextFS()
         ex.ctx.ghost["fs"] = fs
         r1 = plt_path()
@@ -195,16 +198,17 @@ class CombineRoundTrip(Task):
         c, pf1, pf2 = self.cfg, inp["pf1"], inp["pf2"]
         ex.call_depth += 1
         try:
-            p1 = ex.instantiate("amr_kitchen.plotfile_cooker.PlotfileCooker", [inp["r1"]], {})
+            p1 = ex.instantiate("amr_kitchen.plotfile_cooker.PlotfileCooker", [inp["r1"]], dict(limit_level=c["limit"]))
             p2 = ex.instantiate("amr_kitchen.plotfile_cooker.PlotfileCooker", [inp["r2"]], {})
+            Lc = pf1.L if c["limit"] is None else c["limit"]
             names = [S(NameAtom(pf1.names[k])) for k in c["k1"]] + [S(NameAtom(pf2.names[k])) for k in c["k2"]]
             out = PathVal([("name", Opaque("out", "name"))], False, False)     # combine anchors relative outputs at cwd
             # np.unique(field_names) only checks for duplicates: distinct opaque names
             from pyvc.exec import LIBS
             LIBS[("numpy", "unique")] = lambda ex_, a, k: list(a[0])
             ex.call_qual(PCK + "write_global_header_new_fields", [out, names], {}, self_obj=p1)
-            newoff = [[z3.Int(f"newoff{lv}_{b}") for b in range(pf1.nboxes[lv])] for lv in range(pf1.L + 1)]
-            for lv in range(pf1.L + 1):
+            newoff = [[z3.Int(f"newoff{lv}_{b}") for b in range(pf1.nboxes[lv])] for lv in range(Lc + 1)]
+            for lv in range(Lc + 1):
                 ex.call_qual(CB + "rewrite_level_header", [p1, p2, out, lv, len(names), Vec(newoff[lv]), list(c["k1"]), list(c["k2"])], {})
             from pyvc.libos import os_getcwd
             back = ex.instantiate("amr_kitchen.plotfile_cooker.PlotfileCooker", [join2(ex, os_getcwd(ex, [], {}), out)], dict(maxmins=True))
@@ -219,18 +223,20 @@ class CombineRoundTrip(Task):
             return
         c, pf1, pf2 = self.cfg, inp["pf1"], inp["pf2"]
         back, newoff, names = out.value
-        view = View(pf1, list(c["k1"]), pf1.L, newoff, names=names)
+        Lc = pf1.L if c["limit"] is None else c["limit"]
+        view = View(pf1, list(c["k1"]), Lc, newoff, names=names)
         view.nf = len(names)
         view.mins = [[[pf1.mins[lv][b][k] for k in c["k1"]] + [pf2.mins[lv][b][k] for k in c["k2"]] for b in range(pf1.nboxes[lv])]
-                     for lv in range(pf1.L + 1)]
+                     for lv in range(Lc + 1)]
         view.maxs = [[[pf1.maxs[lv][b][k] for k in c["k1"]] + [pf2.maxs[lv][b][k] for k in c["k2"]] for b in range(pf1.nboxes[lv])]
-                     for lv in range(pf1.L + 1)]
+                     for lv in range(Lc + 1)]
         check_reader_view(ex, back, view, None, True, False, label="roundtrip", grids=False)
 
 
 def roundtrip_tasks(tier):
     out = [ColanderRoundTrip(3, 2, [2, 1], [1, 0], None), ColanderRoundTrip(2, 3, [1, 2], [2], 0), ColanderRoundTrip(3, 2, [1], "all", None),
-           ChefRoundTrip(2, [1, 2], 1), ChefRoundTrip(2, [1], 0), CombineRoundTrip(2, 2, [1, 2], [0, 1], [1]), CombineRoundTrip(1, 1, [1], [0], [0])]
+           ChefRoundTrip(2, [1, 2], 1), ChefRoundTrip(2, [1], 0), CombineRoundTrip(2, 2, [1, 2], [0, 1], [1]), CombineRoundTrip(1, 1, [1], [0], [0]),
+           CombineRoundTrip(2, 1, [1, 2], [1], [0], limit=0, nboxes2=[1]), ChefRoundTrip(2, [1, 1], 1, limit=0)]
     if tier == "thorough":
         out += [ColanderRoundTrip(3, 4, [2, 2, 1], [3, 1], 1), ColanderRoundTrip(2, 4, [3, 2, 2, 1], [0, 2, 3], 3),
                 ChefRoundTrip(3, [2, 2, 1], 3), CombineRoundTrip(3, 2, [2, 2, 2], [2, 0], [0, 1])]
